@@ -336,3 +336,62 @@ impl<T: Seek> Seek for Shared<T> {
         self.0.lock().unwrap().seek(p)
     }
 }
+
+/// Vec-backed Read+Write+Seek like Cursor<Vec<u8>>, but a write that would grow the buffer past
+/// `max_len` fails with an I/O error (std's Cursor panics with "capacity overflow" or allocates
+/// gigabytes when a crafted archive makes the writer seek far away - that is the sink's behaviour,
+/// not the crate's).
+pub struct BoundedSink {
+    pub data: Vec<u8>,
+    pub pos: u64,
+    pub max_len: u64,
+}
+impl BoundedSink {
+    pub fn new(data: Vec<u8>, slack: u64) -> Self {
+        let max_len = data.len() as u64 + slack;
+        BoundedSink { data, pos: 0, max_len }
+    }
+}
+impl Read for BoundedSink {
+    fn read(&mut self, buf: &mut [u8]) -> io::Result<usize> {
+        if self.pos >= self.data.len() as u64 {
+            return Ok(0);
+        }
+        let s = &self.data[self.pos as usize..];
+        let n = s.len().min(buf.len());
+        buf[..n].copy_from_slice(&s[..n]);
+        self.pos += n as u64;
+        Ok(n)
+    }
+}
+impl Write for BoundedSink {
+    fn write(&mut self, buf: &[u8]) -> io::Result<usize> {
+        let end = self.pos.checked_add(buf.len() as u64).ok_or_else(|| io::Error::new(io::ErrorKind::InvalidInput, "position overflow"))?;
+        if end > self.max_len {
+            return Err(io::Error::new(io::ErrorKind::Other, "sink: write beyond the size limit"));
+        }
+        if end as usize > self.data.len() {
+            self.data.resize(end as usize, 0);
+        }
+        self.data[self.pos as usize..end as usize].copy_from_slice(buf);
+        self.pos = end;
+        Ok(buf.len())
+    }
+    fn flush(&mut self) -> io::Result<()> {
+        Ok(())
+    }
+}
+impl Seek for BoundedSink {
+    fn seek(&mut self, p: SeekFrom) -> io::Result<u64> {
+        let np: i128 = match p {
+            SeekFrom::Start(s) => s as i128,
+            SeekFrom::End(o) => self.data.len() as i128 + o as i128,
+            SeekFrom::Current(o) => self.pos as i128 + o as i128,
+        };
+        if np < 0 || np > u64::MAX as i128 {
+            return Err(io::Error::new(io::ErrorKind::InvalidInput, "invalid seek to a negative or overflowing position"));
+        }
+        self.pos = np as u64;
+        Ok(self.pos)
+    }
+}
